@@ -2,6 +2,17 @@
 import json, os
 V = os.path.dirname(os.path.dirname(os.path.abspath(__file__)))
 CLAIMED = {
+ "C16": dict(
+   text="Proof: in the store model of argument objects (handles to mutable option dictionaries, arbitrary sharing), for EVERY history of constructor calls the store "
+        "afterwards equals the store before and every result equals the result of the same call on the original store; a dictionary that does not fix the metallicity "
+        "yields the requested one; machine-checked refutation for the code before fix cc856a2 (setdefault on the caller's object). Random histories of IFMR / EvolvedMF / "
+        "EvolvedMFWithBH / InitialBHPopulation.from_IMF calls sharing dicts, lists, arrays and IMF objects: every shared object deep-snapshotted around each call, every "
+        "result compared bit-for-bit with the same call evaluated alone in a FRESH interpreter; the effective metallicity of dictionary-sharing IFMR sequences is "
+        "observed (table opened) and compared with the model.",
+   design="8/C16", technique="Coq proof by induction over call histories on an explicit object store (axiom-free) + history-vs-fresh-interpreter differential oracle",
+   note="Trusted: Coq kernel (theorems closed under the global context); the store model covers option dictionaries (lists/arrays/IMF objects are covered by the "
+        "snapshot oracle only); harness + fresh_worker.py; the documented in-place routines are checked in C07/C08/C15."),
+
  "C06": dict(
    text="Proof over ALL schedules (lists of non-negative ages of any length, unsorted, with repeats, with ages equal to turn-off times or 0): the integration grid is "
         "sorted and contains every requested age; row i holds the extraction (with row index i, hence its own BH target) of the flow from 0 to ITS OWN age whenever i is "
